@@ -234,7 +234,7 @@ def c_set_new_initial_state(k):
                 self.nu, self.u0 = nu, (np.arange(nu, dtype=float) - 5.0).astype(object)
 
     with npshim.active(True), k.spec():
-        sysm = csys.System()
+        sysm = csys.System(t0=0.75)  # a first initial time other than 0: a restart at t = 0 must replace it
         parts = [C("body", 3, 2), C("internal_state", 1, None), C("massless", None, None), C("body2", 2, 2), C("internal_state2", 2, None)]
         sysm.add(*parts)
         saved = csys.consistent_initial_conditions
@@ -244,7 +244,8 @@ def c_set_new_initial_state(k):
             q_new, u_new = S.symarray("q_new", sysm.nq), S.symarray("u_new", sysm.nu)
             layout = {c.name: (getattr(c, "my_qDOF", None), getattr(c, "my_uDOF", None)) for c in parts}
             old = {c.name: [(a, a.copy()) for a in (getattr(c, "q0", None), getattr(c, "u0", None)) if a is not None] for c in parts}
-            sysm.set_new_initial_state(q_new, u_new, t0=1.5)
+            t_new = S.var("t_new")  # every real restart time, 0 included
+            sysm.set_new_initial_state(q_new, u_new, t0=t_new)
         finally:
             csys.consistent_initial_conditions = saved
         k.prove("the re-assembled system has the same sizes", sysm.nq == 8 and sysm.nu == 4)
@@ -255,7 +256,7 @@ def c_set_new_initial_state(k):
                 k.prove_eq(f"{c.name}: the array that held the previous initial state is not written to", arr, before)
         k.prove_eq("assembled initial configuration = the state passed in", sysm.q0, q_new)
         k.prove_eq("assembled initial velocity = the state passed in", sysm.u0, u_new)
-        k.prove("initial time = the time passed in", float(sysm.t0) == 1.5)
+        k.prove_eq("initial time = the time passed in (for every real restart time, 0 included)", sysm.t0, t_new)
         for c in parts:
             qd, ud = layout[c.name]
             if qd is not None:
